@@ -25,7 +25,7 @@ def mc(prop, tier):
             ("MC_Atomic", "MC_Atomic_w8.cfg", FIELD_ACTIONS + ["MC_Atomic.MRmw"]),
             ("MC_Atomic", "MC_Atomic_w8_4t.cfg", FIELD_ACTIONS + ["MC_Atomic.MRmw"]),
             ("MC_Atomic", "MC_Atomic_ef64.cfg", FIELD_ACTIONS + ["MC_Atomic.MRmw"]),
-            ("MC_Atomic", "MC_Atomic_live.cfg", ALL_ACTIONS),
+            ("MC_Atomic", "MC_Atomic_live_t.cfg", ALL_ACTIONS),
             ("MC_Atomic", "MC_Atomic_live8.cfg", FIELD_ACTIONS + ["MC_Atomic.MRmw"])]
 
 
